@@ -597,6 +597,8 @@ def rule_time_reversed(chk, prog):
 
 
 def run(chk, prog, tier):
+  from rules import c01 as _c01
+  _c01.rule_shared_state(chk, prog, rule='C03.8-operator-tables-never-updated-in-place')
   common.rule_vweight(chk, prog, 'C03.1-prefix-sums-weighted', modules=(PE,))
   chk.at_least('C03.1-prefix-sums-weighted', 5)
   rule_linear(chk, prog)
